@@ -30,10 +30,17 @@ var spec = lib.Spec{
 
 type Case struct {
 	H lib.History
+	// CleanAt[i]: run the reference clean build after step i even if the incremental outputs already
+	// equal the model's prediction (it always runs at the last step and whenever they differ).
+	CleanAt []bool
 }
 
 func gen(t *rapid.T) Case {
-	return Case{H: lib.GenHistory(t, lib.RepoGenOpts{}, 2, 6)}
+	c := Case{H: lib.GenHistory(t, lib.RepoGenOpts{}, 2, 6)}
+	for range c.H.States {
+		c.CleanAt = append(c.CleanAt, rapid.IntRange(0, 2).Draw(t, "clean") == 0)
+	}
+	return c
 }
 
 func run(c Case, o *lib.Obs) error {
@@ -53,32 +60,44 @@ func run(c Case, o *lib.Obs) error {
 		req := h.Requests[i]
 		outs, okm := st.Eval()
 		resW := e.PlzW().Run(lib.BuildTimeout, append([]string{"build"}, req...)...)
-		f, resF, err := e.CleanBuild(st, req)
-		if err != nil {
-			return &lib.Inconclusive{Msg: "clean sync: " + err.Error()}
-		}
-		if resW.TimedOut || resF.TimedOut {
-			e.RemoveClean(f)
+		if resW.TimedOut {
 			return &lib.Inconclusive{Msg: "plz timed out"}
 		}
 		_ = okm
-		snapF := st.SnapshotOutputs(f, req, outs)
 		snapW := st.SnapshotOutputs(e.W, req, outs)
-		e.RemoveClean(f)
 		exp := st.ExpectedOutputs(req, outs)
 		step := fmt.Sprintf("step %d (%s), request %v", i, h.Descs[i], req)
-		if resF.Exit != 0 {
-			// the generator only produces buildable repositories; a failing clean build is a harness problem
-			return &lib.Inconclusive{Msg: "clean build failed at " + step + ": " + resF.Brief()}
-		}
-		if d := lib.DiffEntries(exp, snapF, lib.DiffOpts{IgnoreExec: true}); d != "" {
-			return &lib.Inconclusive{Msg: "model disagrees with the CLEAN build at " + step + ":\n" + d}
-		}
-		if resW.Exit != resF.Exit {
-			return lib.Failf("exit-differs", "%s: incremental exit %d, clean exit %d\n%s", step, resW.Exit, resF.Exit, resW.Brief())
-		}
-		if d := lib.DiffEntries(snapF, snapW, lib.DiffOpts{}); d != "" {
-			return lib.Failf("outputs-differ", "%s: incremental build differs from clean build (first=clean, second=incremental):\n%s\nhistory: %v", step, d, h.Descs[:i+1])
+		agreesWithModel := resW.Exit == 0 && lib.DiffEntries(exp, snapW, lib.DiffOpts{IgnoreExec: true}) == ""
+		if agreesWithModel && i != len(h.States)-1 && !(i < len(c.CleanAt) && c.CleanAt[i]) {
+			// incremental result equals the independent model's prediction; the (expensive) clean
+			// build is skipped for this step – it is run on a drawn third of the steps, always at the
+			// last step, and whenever model and incremental build disagree.
+			o.Label("step_checked_against_model_only")
+		} else {
+			f, resF, err := e.CleanBuild(st, req)
+			if err != nil {
+				return &lib.Inconclusive{Msg: "clean sync: " + err.Error()}
+			}
+			if resF.TimedOut {
+				e.RemoveClean(f)
+				return &lib.Inconclusive{Msg: "plz timed out"}
+			}
+			snapF := st.SnapshotOutputs(f, req, outs)
+			e.RemoveClean(f)
+			o.Label("step_checked_against_clean_build")
+			if resF.Exit != 0 {
+				// the generator only produces buildable repositories; a failing clean build is a harness problem
+				return &lib.Inconclusive{Msg: "clean build failed at " + step + ": " + resF.Brief()}
+			}
+			if d := lib.DiffEntries(exp, snapF, lib.DiffOpts{IgnoreExec: true}); d != "" {
+				return &lib.Inconclusive{Msg: "model disagrees with the CLEAN build at " + step + ":\n" + d}
+			}
+			if resW.Exit != resF.Exit {
+				return lib.Failf("exit-differs", "%s: incremental exit %d, clean exit %d\n%s", step, resW.Exit, resF.Exit, resW.Brief())
+			}
+			if d := lib.DiffEntries(snapF, snapW, lib.DiffOpts{}); d != "" {
+				return lib.Failf("outputs-differ", "%s: incremental build differs from clean build (first=clean, second=incremental):\n%s\nhistory: %v", step, d, h.Descs[:i+1])
+			}
 		}
 		// non-triviality bookkeeping
 		cur := map[string]string{}
